@@ -8,8 +8,12 @@ from ..core import run_section, hs
 MODULE = 'KdVerif.Props.C12'
 NAMESPACE = 'KdVerif.C12'
 TRUSTED = ['Model/Filters.lean written stage by stage like PyKdebugParser.kevents / os_log_events / '
-           '_is_eventid_allowed; tied by the correspondence sections filters-v2 / filters-mixed / filters-v3',
-           'Python filter()/in/== on ints, tuples, lists and str as modelled (List.filter, List.contains, ==)']
+           '_is_eventid_allowed; tied to the code by the correspondence sections filters-v2 / filters-mixed / filters-v3 '
+           'and to the SOURCE TEXT by translation (tools/gen_pyir_fl.py -> Gen/PyIRFl, source_is_expected_ir, '
+           'kevents_ir_eq_model, os_log_events_ir_eq_model, is_eventid_allowed_ir_eq_model); trusted for that: the '
+           'translator and the interpreter Model/PyIRFl (section filters-ir tests them against CPython)',
+           'Python filter()/in/==/truthiness/and/or on ints, tuples, lists, None and str as the interpreter of Model/PyIRFl '
+           'evaluates them; the stream KdBufParser(...).parse(kdebug) is the given item list (C02/C03)']
 ASSUMPTIONS = ['the filter attributes of the parser object are not changed while a listing is being consumed '
                '(the lazy filter stages read them when an element is pulled)',
                'thread ids, event ids and the filter numbers are integers; negative filter values match nothing '
@@ -99,10 +103,10 @@ def csv(lst, big):
     return ','.join(str(nat(v, big)) for v in lst) or '-'
 
 
-def line_fn(case):
+def line_fn(case, cmd='filter'):
     from ..impl import record_args
     cfg = case['cfg']
-    parts = ['filter',
+    parts = [cmd,
              'N' if cfg['tid'] is None else str(nat(cfg['tid'], 2 ** 70)),
              'N' if cfg['fc_arg'] is None else csv(cfg['fc_arg'], 2 ** 70),
              csv(cfg['classes'], 2 ** 70), csv(cfg['subs'], 2 ** 70),
@@ -315,6 +319,11 @@ RULES = {
     'cli-kevents': 'the `kevents` command of the tool (click CliRunner, dump on stdin) with --tid / -cf / -sf (decimal and '
                    'hex, repeated, negative) / --show-tid: printed lines compared with the model of formatted_kevents under '
                    'the same options',
+    'filters-ir': 'the cases of filters-v2 / filters-mixed / filters-v3 once more: the methods GENERATED from the source text of '
+                  'pykdebugparser.py (Gen/PyIRFl: kevents, os_log_events, _is_eventid_allowed) run by the interpreter of '
+                  'Model/PyIRFl (`flir`: lazy filter stages stacked by the translated method body, each lambda evaluated in '
+                  'the frame\'s final variables, Python truthiness) against the real code - tests the translator and the '
+                  'interpreter, not the hand model',
     'filters-v3': 'real version-3 files (header, thread map, one events chunk, log-strings and log-events property '
                   'lists): events followed by log records, both listings compared',
 }
@@ -494,12 +503,45 @@ def schedules_section(rep, rng, tier):
         rep.broken.append('correspondence:schedules (%d of %d listings differ)' % (sec['mismatches'], sec['cases']))
 
 
+C12_METHODS = ('_is_eventid_allowed', 'kevents', 'os_log_events', 'notes')
+
+
+def translation_tie(rep):
+    """Is the IR translated from pykdebugparser.py the one the refinement theorems are about?  Returns whether the
+    generated methods can be run (no `.unsupported` node)."""
+    ans = core.drive(['flircheck'])[0]
+    if ans == 'same':
+        rep.notes.append('translation tie: Gen/PyIRFl (from pykdebugparser.py) = Spec/PyIRFlExpected')
+        return True
+    differing = ans.split(' ')[1].split(',') if ans.startswith('differs ') else [ans]
+    mine = [m for m in differing if m in C12_METHODS or not ans.startswith('differs ')]
+    if mine:
+        rep.broken.append('theorem source_is_expected_ir: the IR that tools/gen_pyir_fl.py translates from the source text of '
+                          'pykdebugparser.py (%s) is not the one of Spec/PyIRFlExpected that kevents_ir_eq_model / '
+                          'os_log_events_ir_eq_model / is_eventid_allowed_ir_eq_model are proved for (%s)'
+                          % (', '.join(mine), ans))
+    else:
+        rep.notes.append('translation tie: the methods of this property translate to Spec/PyIRFlExpected (%s: other '
+                         'property)' % ans)
+    return 'unsupported' not in ans
+
+
 def correspondence(rep, rng, tier):
     reuse_section(rep, rng, tier)
     schedules_section(rep, rng, tier)
+    runnable = translation_tie(rep)
+    ir_cases = []
     for sec, kind in (('filters-v2', 'v2'), ('filters-mixed', 'stub'), ('filters-v3', 'v3')):
-        run_section(rep, sec, gen_cases(rng, tier, kind), line_fn=line_fn, impl_fn=impl_fn, oracle_fn=oracle,
+        cases = gen_cases(rng, tier, kind)
+        ir_cases += cases if tier == 'quick' else cases[::5]
+        run_section(rep, sec, cases, line_fn=line_fn, impl_fn=impl_fn, oracle_fn=oracle,
                     nontrivial_fn=nontrivial, kind_fn=kind_fn, rule=RULES[sec])
+    if runnable:
+        run_section(rep, 'filters-ir', ir_cases, line_fn=lambda c: line_fn(c, 'flir'), impl_fn=impl_fn, oracle_fn=oracle,
+                    nontrivial_fn=nontrivial, kind_fn=kind_fn, rule=RULES['filters-ir'],
+                    skip_fn=lambda m: m == 'unsupported')
+    else:
+        rep.notes.append('section filters-ir skipped: the translation contains .unsupported nodes')
     run_section(rep, 'cli-kevents', gen_cli_cases(rng, tier), line_fn=cli_line, impl_fn=cli_impl, oracle_fn=cli_oracle,
                 nontrivial_fn=lambda c, g: g.startswith('ok ') and 0 < len(g[3:].split()) < len(c['items']),
                 kind_fn=lambda c, g: 'show_tid' if c['show_tid'] else 'no_tid', rule=RULES['cli-kevents'])
@@ -556,6 +598,8 @@ def replay(path):
         return 0
     case = rp['case']
     fl, fi, fo = (cli_line, cli_impl, cli_oracle) if r['replay'].get('section') == 'cli-kevents' else (line_fn, impl_fn, oracle)
+    if r['replay'].get('section') == 'filters-ir':
+        fl = lambda c: line_fn(c, 'flir')  # noqa: E731
     try:
         got = fi(case)
     except Exception as e:
@@ -577,7 +621,13 @@ LEVEL_TEXT = ('Lean theorems over the stage-by-stage model of kevents / os_log_e
               'records interleaved) and all configurations: kevents_eq_filter, keventsWith_eq_filter, kevents_sublist, '
               'count_kevents, logs_eq_filter, events_logs_disjoint, listings_partition, filter_idempotent, '
               'filter_compose; model tied to the code by differential runs on version-2 files, version-3 files and '
-              'stubbed mixed streams.')
-LEVEL_NOTE = ('Trusted: Lean kernel, the hand-written model of the filter chain (checked by correspondence), Python '
-              'filter()/in semantics. Assumes the filter attributes stay fixed while the lazy listing is consumed.')
-TECHNIQUE = 'Lean 4 proof (filter-chain = declarative List.filter) + differential correspondence'
+              'stubbed mixed streams, and to the source text by translation: source_is_expected_ir (the IR translated from '
+              'pykdebugparser.py on every run is the expected one), kevents_ir_eq_model / os_log_events_ir_eq_model / '
+              'is_eventid_allowed_ir_eq_model (the translated methods, interpreted, ARE the model for every configuration, '
+              'class-list argument and stream), kevents_ir_eq_filter.')
+LEVEL_NOTE = ('Trusted: Lean kernel, the translator tools/gen_pyir_fl.py and the interpreter Model/PyIRFl (Python filter() / '
+              'in / == / truthiness semantics; tested against CPython by the section filters-ir), the correspondence '
+              'harness. The container parser behind the listings stays hand-modelled (its stream is the given item list). '
+              'Assumes the filter attributes stay fixed while the lazy listing is consumed.')
+TECHNIQUE = ('Lean 4 proof (filter-chain = declarative List.filter) + translation validation of kevents / os_log_events / '
+             '_is_eventid_allowed + differential correspondence')
